@@ -15,7 +15,7 @@ use star_frame::{
 use star_frame_spl::{
     associated_token::AssociatedToken,
     token::{
-        state::{MintAccount, TokenAccount},
+        state::{FreezeAuthority, MintAccount, TokenAccount, ValidateMint, ValidateToken},
         Token,
     },
 };
@@ -135,6 +135,174 @@ fn fw_token(owner: &Pubkey, image: &[u8]) -> Result<TokenFields, String> {
     })
 }
 
+fn p_any_key(s: &str) -> Option<Option<Pubkey>> {
+    if s == "any" {
+        Some(None)
+    } else {
+        p_key(s).map(Some)
+    }
+}
+
+/// `vmint`: the `validate_mint` validation id (`validate()?; validate_mint(arg)`).
+pub fn exec_vmint(owner: &str, image: &str, d: &str, au: &str, fr: &str) -> Exec {
+    let (Some(owner), Some(image)) = (p_key(owner), unhex(image)) else { return Exec::bad() };
+    let dec: Option<u8> = if d == "any" {
+        None
+    } else if !d.is_empty() && d.bytes().all(|c| c.is_ascii_digit()) {
+        match d.parse::<u8>() {
+            Ok(v) => Some(v),
+            Err(_) => return Exec::bad(),
+        }
+    } else {
+        return Exec::bad();
+    };
+    let Some(auth) = p_any_key(au) else { return Exec::bad() };
+    #[derive(Clone, Copy)]
+    enum Fr {
+        Any,
+        None,
+        Some(Pubkey),
+    }
+    let fr = match fr {
+        "any" => Fr::Any,
+        "none" => Fr::None,
+        k => match p_key(k) {
+            Some(k) => Fr::Some(k),
+            None => return Exec::bad(),
+        },
+    };
+    let run = || -> Result<(), String> {
+        let key = Pubkey::new_from_array([3; 32]);
+        let world = World::new(&[AcctSpec::new(key, owner).data(image.clone())]);
+        let mut ctx = Context::new(&PROGRAM_ID);
+        let mut accs = world.infos();
+        let mut set = MintAccount::decode_accounts(&mut accs, (), &mut ctx).map_err(err_class)?;
+        let arg = ValidateMint {
+            decimals: dec,
+            authority: auth.as_ref(),
+            freeze_authority: match &fr {
+                Fr::Any => FreezeAuthority::Any,
+                Fr::None => FreezeAuthority::None,
+                Fr::Some(k) => FreezeAuthority::Some(k),
+            },
+        };
+        set.validate_accounts(arg, &mut ctx).map_err(err_class)
+    };
+    let fw = run();
+    let answer = match &fw {
+        Ok(()) => "ok".to_string(),
+        Err(e) => e.clone(),
+    };
+    let mut bumps = vec![
+        "validate:mint".to_string(),
+        format!("vmint:fw:{answer}"),
+        format!("vmint:arg:decimals:{}", if dec.is_some() { "some" } else { "any" }),
+        format!("vmint:arg:authority:{}", if auth.is_some() { "some" } else { "any" }),
+        format!("vmint:arg:freeze:{}", match fr { Fr::Any => "any", Fr::None => "none", Fr::Some(_) => "some" }),
+    ];
+    let mut fails = vec![];
+    let mut nontrivial = false;
+    if owner == Token::ID {
+        if let Ok(m) = ref_state::Mint::unpack(&image) {
+            nontrivial = true;
+            let (ma, fa) = (copt_key(m.mint_authority), copt_key(m.freeze_authority));
+            let want = dec.map_or(true, |d| m.decimals == d)
+                && auth.map_or(true, |a| ma == Some(a))
+                && match fr {
+                    Fr::Any => true,
+                    Fr::None => fa.is_none(),
+                    Fr::Some(k) => fa == Some(k),
+                };
+            bumps.push(format!("vmint:ref-predicate:{want}"));
+            if stale_payload(&image, &[(0, 32), (46, 32)]) {
+                bumps.push("vmint:image-has-NONE-tag-over-stale-payload".into());
+            }
+            match (want, &fw) {
+                (true, Err(e)) => fails.push((
+                    "validate_mint_rejects_valid".into(),
+                    format!("the predicate holds on the reference-unpacked fields, validate_mint answers {e}"),
+                )),
+                (false, Ok(())) => fails.push((
+                    "validate_mint_accepts_invalid".into(),
+                    "the predicate fails on the reference-unpacked fields, validate_mint accepts".into(),
+                )),
+                (false, Err(e)) if e != "err:InvalidAccountData" => fails.push((
+                    "validate_mint_error_class".into(),
+                    format!("expected err:InvalidAccountData, got {e}"),
+                )),
+                _ => {}
+            }
+        }
+    }
+    Exec { answer, fails, nontrivial, bumps }
+}
+
+/// true if some COption cell (tag offset, payload length) has tag NONE and a non-zero payload
+fn stale_payload(image: &[u8], cells: &[(usize, usize)]) -> bool {
+    cells.iter().any(|&(t, n)| {
+        image.len() >= t + 4 + n && image[t..t + 4] == [0, 0, 0, 0] && image[t + 4..t + 4 + n].iter().any(|&b| b != 0)
+    })
+}
+
+/// `vtoken`: the `validate_token` validation id.
+pub fn exec_vtoken(owner: &str, image: &str, mint: &str, own: &str) -> Exec {
+    let (Some(owner), Some(image)) = (p_key(owner), unhex(image)) else { return Exec::bad() };
+    let (Some(mint), Some(own)) = (p_any_key(mint), p_any_key(own)) else { return Exec::bad() };
+    let run = || -> Result<(), String> {
+        let key = Pubkey::new_from_array([3; 32]);
+        let world = World::new(&[AcctSpec::new(key, owner).data(image.clone())]);
+        let mut ctx = Context::new(&PROGRAM_ID);
+        let mut accs = world.infos();
+        let mut set = TokenAccount::decode_accounts(&mut accs, (), &mut ctx).map_err(err_class)?;
+        let arg = ValidateToken { mint: mint.map(KeyFor::new), owner: own };
+        set.validate_accounts(arg, &mut ctx).map_err(err_class)
+    };
+    let fw = run();
+    let answer = match &fw {
+        Ok(()) => "ok".to_string(),
+        Err(e) => e.clone(),
+    };
+    let mut bumps = vec![
+        "validate:token".to_string(),
+        format!("vtoken:fw:{answer}"),
+        format!("vtoken:arg:mint:{}", if mint.is_some() { "some" } else { "any" }),
+        format!("vtoken:arg:owner:{}", if own.is_some() { "some" } else { "any" }),
+    ];
+    let mut fails = vec![];
+    let mut nontrivial = false;
+    if owner == Token::ID {
+        if let Ok(a) = ref_state::Account::unpack(&image) {
+            nontrivial = true;
+            let want: Result<(), &str> = if mint.map_or(false, |m| a.mint != m) {
+                Err("err:InvalidAccountData")
+            } else if own.map_or(false, |o| a.owner != o) {
+                Err("err:IncorrectAuthority")
+            } else {
+                Ok(())
+            };
+            bumps.push(format!("vtoken:ref-predicate:{}", want.is_ok()));
+            if stale_payload(&image, &[(72, 32), (109, 8), (129, 32)]) {
+                bumps.push("vtoken:image-has-NONE-tag-over-stale-payload".into());
+            }
+            match (want, &fw) {
+                (Ok(()), Err(e)) => fails.push((
+                    "validate_token_rejects_valid".into(),
+                    format!("the predicate holds on the reference-unpacked fields, validate_token answers {e}"),
+                )),
+                (Err(_), Ok(())) => fails.push((
+                    "validate_token_accepts_invalid".into(),
+                    "the predicate fails on the reference-unpacked fields, validate_token accepts".into(),
+                )),
+                (Err(w), Err(e)) if w != e => {
+                    fails.push(("validate_token_error_class".into(), format!("expected {w}, got {e}")))
+                }
+                _ => {}
+            }
+        }
+    }
+    Exec { answer, fails, nontrivial, bumps }
+}
+
 pub fn exec_mint(owner: &str, image: &str) -> Exec {
     let (Some(owner), Some(image)) = (p_key(owner), unhex(image)) else { return Exec::bad() };
     let fw = fw_mint(&owner, &image);
@@ -159,6 +327,9 @@ pub fn exec_mint(owner: &str, image: &str) -> Exec {
                     fa: copt_key(m.freeze_authority),
                 };
                 nontrivial |= want.ma.is_some() || want.fa.is_some();
+                if stale_payload(&image, &[(0, 32), (46, 32)]) {
+                    bumps.push("mint:NONE-tag-over-stale-payload".into());
+                }
                 if &want != f {
                     fails.push(("mint_view_fields".into(), format!("reference {} framework {}", want.show(), f.show())));
                 }
@@ -206,6 +377,9 @@ pub fn exec_token(owner: &str, image: &str) -> Exec {
                     close: copt_key(a.close_authority),
                 };
                 nontrivial |= want.delegate.is_some() || want.native.is_some() || want.close.is_some();
+                if stale_payload(&image, &[(72, 32), (109, 8), (129, 32)]) {
+                    bumps.push("token:NONE-tag-over-stale-payload".into());
+                }
                 if &want != f {
                     fails.push(("token_view_fields".into(), format!("reference {} framework {}", want.show(), f.show())));
                 }
